@@ -408,7 +408,7 @@ pub fn run(args: &Args, r: &mut Report) {
                 let plan_id = format!("plan-{}", rng.below(2));
                 lab.push_str(&format!("|{}:{}:{}", plan_id, pat, results.iter().map(|x| match x { InstRes::Installed => 'I', InstRes::Deferred => 'D', InstRes::Failed => 'F' }).collect::<String>()));
                 script.checks.push(CheckScript {
-                    attempts: vec![RespSpec::Reply(ReplySpec::ok(BodySpec::Doc(DocSpec { daystart: None, apps: doc_apps })))],
+                    attempts: vec![RespSpec::Reply(ReplySpec::ok(BodySpec::Doc(DocSpec { daystart: None, apps: doc_apps, wrap: 0 })))],
                     plan_id,
                     results,
                     progress: vec![0.5],
